@@ -87,13 +87,7 @@ Proof.
 Qed.
 
 Lemma parse_float_literal_nof s : post (parse_float_literal s) (fun _ => True).
-Proof.
-  unfold parse_float_literal. destruct (split_number s) as [[[[neg ip] fp] ex]|]; [|noof].
-  destruct (Z.leb 400 ex); [noof|].
-  match goal with |- context [if ?c then _ else _] => destruct c end; [noof|].
-  cbv zeta. match goal with |- context [if ?c then _ else _] => destruct c end; [noof|].
-  match goal with |- context [match ?p with Zpos _ => _ | _ => _ end] => destruct p end; noof.
-Qed.
+Proof. destruct (parse_float_literal_cases s) as [->|[->|[n ->]]]; noof. Qed.
 
 Lemma check_uncompared_nof e : post (check_uncompared e) (fun _ => True).
 Proof.
